@@ -1091,6 +1091,11 @@ def strat_deny(tier):
 P_ROOT = "w/r1/r2/R"          # the collection root, three levels below the base
 P_OUT = "o/a1/a2/arch"        # the output directory, three levels below the base
 P_FILES = ["/etc/a.conf", "/etc/sub/c.conf", "/var/log/m.log", "/top.txt", "/etc/x y.conf"]
+# symlinks inside the root that lead to files inside the root (relative and absolute target): collecting
+# them is legitimate; what is persisted must still be a file beneath the output directory
+P_LINKS = [("/etc/ln.conf", {"to": "a.conf"}), ("/var/lnabs.conf", {"abs": P_ROOT + "/etc/a.conf"}),
+           ("/etc/sub/up.conf", {"to": "../../top.txt"})]
+P_COLLECTIBLE = P_FILES + [l[0] for l in P_LINKS]
 # every save_as with a leading '/' is an absolute path INTO THE SANDBOX ({ABS} = <base>/o/abs), so that a
 # tree that fails to strip it writes into the temp area (seen by the diff) and never to the real '/'
 # ({I} = index of the spec: two specs never fight over one name as file and as directory)
@@ -1103,6 +1108,8 @@ def p_entries():
             {"t": "d", "p": "o/abs"}]
     for p in P_FILES:
         ents.append({"t": "f", "p": P_ROOT + p, "c": "content of %s\nline two\n" % p})
+    for p, how in P_LINKS:
+        ents.append(dict({"t": "l", "p": P_ROOT + p}, **how))
     for x in D_EXES:
         ents.append({"t": "f", "p": "x/" + x.split("/", 1)[1], "c": "#!/bin/sh\nexit 0\n", "mode": 0o755})
     return ents
@@ -1206,15 +1213,15 @@ def _p_spec(draw):
         s["raw"] = draw(st.integers(0, 2)) == 0
         s["save_as"] = draw(st.sampled_from(P_SAVE_AS))
     if f == "simple_file":
-        s["path"] = _climb(draw, draw(st.sampled_from(P_FILES)))
+        s["path"] = _climb(draw, draw(st.sampled_from(P_COLLECTIBLE)))
     elif f == "first_file":
-        s["paths"] = [_climb(draw, draw(st.sampled_from(P_FILES + ["/nope"]))) for _ in range(draw(st.integers(1, 3)))]
+        s["paths"] = [_climb(draw, draw(st.sampled_from(P_COLLECTIBLE + ["/nope"]))) for _ in range(draw(st.integers(1, 3)))]
     elif f == "glob_file":
         s["patterns"] = [_climb(draw, draw(st.sampled_from(["/etc/*", "/etc/*.conf", "/*/*/*", "/top.txt", "/etc/x*"])))
                          for _ in range(draw(st.integers(1, 2)))]
     elif f == "foreach_collect":
         s["tmpl"] = draw(st.sampled_from(["%s", "/%s", "etc/../%s"]))
-        s["elems"] = [_climb(draw, draw(st.sampled_from(P_FILES + ["/etc/*"]))).lstrip("/")
+        s["elems"] = [_climb(draw, draw(st.sampled_from(P_COLLECTIBLE + ["/etc/*"]))).lstrip("/")
                       for _ in range(draw(st.integers(1, 3)))]
     elif f == "simple_command":
         s["cmd"] = " ".join([draw(st.sampled_from(D_EXES))] + draw(st.lists(_p_arg, max_size=3)))
